@@ -24,6 +24,27 @@ type c12Decl struct {
 	field *jF
 	// enum options when the field is an enum
 	enumOptions []string
+	// enumNumbers: the number of each option when the enum is not numbered 1..n in order (hand-written proto)
+	enumNumbers []int32
+}
+
+// enumName: the option name of a number ("" and false when the number is not defined)
+func (d *c12Decl) enumName(n int32) (string, bool) {
+	if n == 0 {
+		return "UNSPECIFIED", true
+	}
+	if d.enumNumbers != nil {
+		for i, x := range d.enumNumbers {
+			if x == n {
+				return d.enumOptions[i], true
+			}
+		}
+		return "", false
+	}
+	if n < 0 || int(n) > len(d.enumOptions) {
+		return "", false
+	}
+	return d.enumOptions[n-1], true
 }
 
 // candidate value in harness terms
@@ -228,13 +249,10 @@ func c12Reference(d *c12Decl, v c12Value) bool {
 		if f.Req && n == 0 && !f.Opt {
 			return false
 		}
-		// defined values only: 0 = UNSPECIFIED, 1..len(options)
-		if n < 0 || int(n) > len(d.enumOptions) {
+		// defined values only
+		name, defined := d.enumName(n)
+		if !defined {
 			return false
-		}
-		name := "UNSPECIFIED"
-		if n > 0 {
-			name = d.enumOptions[n-1]
 		}
 		if r := t.Rules; r != nil {
 			if r.In != nil {
@@ -257,8 +275,8 @@ func c12Reference(d *c12Decl, v c12Value) bool {
 		return true
 	case "array":
 		var n int
-		if t.Item.Kind == "integer" {
-			n = len(v.ints)
+		if t.Item.Kind == "integer" || t.Item.Kind == kEnum {
+			n = len(v.ints) // enum items are carried as their numbers
 		} else {
 			n = len(v.strs)
 		}
@@ -295,6 +313,33 @@ func c12Reference(d *c12Decl, v c12Value) bool {
 			}
 		}
 		for _, i := range v.ints {
+			if t.Item.Kind == kEnum {
+				// defined values only, then the item's own in / notIn rules
+				if i < 0 || int(i) > len(d.enumOptions) {
+					return false
+				}
+				name := "UNSPECIFIED"
+				if i > 0 {
+					name = d.enumOptions[i-1]
+				}
+				if r := t.Item.Rules; r != nil {
+					if r.In != nil {
+						ok := false
+						for _, x := range r.In {
+							ok = ok || x == name
+						}
+						if !ok {
+							return false
+						}
+					}
+					for _, x := range r.NotIn {
+						if x == name {
+							return false
+						}
+					}
+				}
+				continue
+			}
 			if !refInt(t.Item, i, uint64(i), strings.HasPrefix(t.Item.IntFmt, "U")) {
 				return false
 			}
@@ -413,6 +458,10 @@ func c12Candidates(d *c12Decl, rng *rand.Rand) []c12Value {
 			n := n
 			out = append(out, c12Value{desc: fmt.Sprintf("enum-%d", n), enum: &n})
 		}
+		for _, n := range d.enumNumbers {
+			n := n
+			out = append(out, c12Value{desc: fmt.Sprintf("enum-%d", n), enum: &n})
+		}
 		x := int32(99)
 		out = append(out, c12Value{desc: "enum-99", enum: &x})
 	case "array":
@@ -429,7 +478,7 @@ func c12Candidates(d *c12Decl, rng *rand.Rand) []c12Value {
 			}
 		}
 		for n := range counts {
-			if t.Item.Kind == "integer" {
+			if t.Item.Kind == "integer" || t.Item.Kind == kEnum {
 				distinct := make([]int64, n)
 				for i := range distinct {
 					distinct[i] = int64(i + 1)
@@ -561,6 +610,17 @@ func c12Declarations(rng *rand.Rand, systematic bool, n int) []*c12Decl {
 		presence("enum/not-in-unspecified", func() *jT {
 			return tRef(kEnum, "Color", "c.v1.Color").with(func(t *jT) { t.Rules = &jRules{NotIn: []string{"UNSPECIFIED", "BLUE"}} })
 		}, enumOpts...)
+		// an enum from a hand-written proto file of the package, numbered with gaps and out of order
+		legacy := func(id string, rules *jRules) {
+			for _, req := range []bool{false, true} {
+				f := &jF{Name: "value", T: tRef(kEnum, "Legacy", "c.v1.Legacy").with(func(t *jT) { t.Rules = rules }), Req: req}
+				out = append(out, &c12Decl{id: fmt.Sprintf("enum-from-proto/%s/req=%v", id, req), field: f, enumOptions: []string{"LOW", "HIGH", "MID"}, enumNumbers: []int32{2, 10, 5}})
+			}
+		}
+		legacy("none", nil)
+		legacy("in", &jRules{In: []string{"LOW", "MID"}})
+		legacy("not-in", &jRules{NotIn: []string{"HIGH"}})
+		legacy("in-unspecified", &jRules{In: []string{"UNSPECIFIED", "HIGH"}})
 		// an enum that spells its zero option out: same numbering, same rule semantics
 		shadeOpts := []string{"DARK", "MID", "LIGHT"}
 		presence("enum-explicit-zero/none", func() *jT { return tRef(kEnum, "Shade", "c.v1.Shade") }, shadeOpts...)
@@ -574,8 +634,12 @@ func c12Declarations(rng *rand.Rand, systematic bool, n int) []*c12Decl {
 			return tRef(kEnum, "Shade", "c.v1.Shade").with(func(t *jT) { t.Rules = &jRules{NotIn: []string{"UNSPECIFIED"}} })
 		}, shadeOpts...)
 		arr := func(id string, item func() *jT, rules *jRules) {
-			add("array-"+id+"/plain", &jF{T: tArr(item()).with(func(t *jT) { t.Rules = rules })})
-			add("array-"+id+"/required", &jF{T: tArr(item()).with(func(t *jT) { t.Rules = rules }), Req: true})
+			var opts []string
+			if item().Kind == kEnum {
+				opts = enumOpts
+			}
+			add("array-"+id+"/plain", &jF{T: tArr(item()).with(func(t *jT) { t.Rules = rules })}, opts...)
+			add("array-"+id+"/required", &jF{T: tArr(item()).with(func(t *jT) { t.Rules = rules }), Req: true}, opts...)
 		}
 		for _, it := range []struct {
 			name string
@@ -586,6 +650,10 @@ func c12Declarations(rng *rand.Rand, systematic bool, n int) []*c12Decl {
 			{"key-id62", func() *jT { return tKeyF("id62") }},
 			{"integer", func() *jT { return tInt("INT64") }},
 			{"integer-min1", func() *jT { return tInt("INT32").with(func(t *jT) { t.Rules = &jRules{Min: pI(1)} }) }},
+			{"enum", func() *jT { return tRef(kEnum, "Color", "c.v1.Color") }},
+			{"enum-not-in", func() *jT {
+				return tRef(kEnum, "Color", "c.v1.Color").with(func(t *jT) { t.Rules = &jRules{NotIn: []string{"GREEN"}} })
+			}},
 		} {
 			it := it
 			arr(it.name+"/none", it.mk, nil)
@@ -730,6 +798,8 @@ func c12SetValue(m *dynamicpb.Message, fd protoreflect.FieldDescriptor, v c12Val
 				l.Append(protoreflect.ValueOfInt32(int32(i)))
 			case protoreflect.Int64Kind:
 				l.Append(protoreflect.ValueOfInt64(i))
+			case protoreflect.EnumKind:
+				l.Append(protoreflect.ValueOfEnum(protoreflect.EnumNumber(i)))
 			default:
 				return false
 			}
@@ -771,7 +841,9 @@ func c12Batch(c *rt.C, decls []*c12Decl, class string) {
 	for i, d := range decls {
 		file.Elems = append(file.Elems, objDecl(fmt.Sprintf("Holder%c%c", 'A'+i/26, 'a'+i%26), d.field))
 	}
-	b := &jBundle{Files: []*jFile{file}}
+	b := &jBundle{Files: []*jFile{file}, Protos: map[string]string{
+		"c/v1/legacy.proto": "syntax = \"proto3\";\n\npackage c.v1;\n\nenum Legacy {\n  LEGACY_UNSPECIFIED = 0;\n  LEGACY_LOW = 2;\n  LEGACY_HIGH = 10;\n  LEGACY_MID = 5;\n}\n",
+	}}
 	src := b.sources()
 	cp, err := compileBundlePackage(newMemBundle(src), "c.v1")
 	if err != nil {
@@ -837,6 +909,13 @@ func c12Batch(c *rt.C, decls []*c12Decl, class string) {
 				// compilation / runtime error of the constraints themselves
 				c.Violate("constraints-unusable/"+strings.SplitN(d.id, "/", 2)[0], fmt.Sprintf("the constraints compiled for %q cannot be evaluated: %v", decl, verr), map[string]any{"declaration": decl, "value": v.desc, "source": src["c/v1/rules.j5s"]})
 				continue
+			}
+			if got == want {
+				if got {
+					c.Event("verdicts_agree_accepted")
+				} else {
+					c.Event("verdicts_agree_rejected")
+				}
 			}
 			if got != want {
 				verdict := func(b bool) string {
